@@ -215,6 +215,18 @@ def run(ctx):
         calls = [t['fd'] for bi, t in fn.calls()]
         ctx.ob('C31-D5', m, 'registry lookup', 'HashMap::%s under the lock' % need, any(re.search(r'HashMap.*::(%s)' % need, c) for c in calls) and any('Mutex' in c and 'lock' in c for c in calls),
                detail=str([c.split('::')[-1] for c in calls][:12]))
+    # validate / untrack return Ok only for a tracked pointer whose recorded type equals the expected type
+    for m in ('cimpl::utils::PointerRegistry::validate', 'cimpl::utils::PointerRegistry::untrack'):
+        if prog.has(m):
+            fn = prog.fn(m)
+            g_type = CallGuard(r'PartialEq::eq$', 'true', argpred=lambda f, bi, t: 'TypeId' in ' '.join(t.get('at', [])), name='recorded TypeId == expected TypeId')
+            g_found = CallGuard(r'HashMap.*::get$', 'some', name='pointer is tracked (get = Some)')
+            oblig.returns_only_if(ctx, 'C31-D5', fn, 'Ok', [g_type])
+            oblig.returns_only_if(ctx, 'C31-D5', fn, 'Ok', [g_found])
+            wt = [1 for b in fn.B for bi2 in [0] for dst, rv in b['s'] if False]
+            calls = [t['fd'] for bi, t in fn.calls()]
+            ctx.ob('C31-D5', m, 'wrong type', 'CimplError::wrong_pointer_type constructed', any(c.endswith('wrong_pointer_type') for c in calls))
+            ctx.ob('C31-D5', m, 'unknown pointer', 'CimplError::untracked_pointer constructed', any(c.endswith('untracked_pointer') for c in calls))
     fr = 'cimpl::utils::PointerRegistry::free'
     if prog.has(fr):
         fn = prog.fn(fr)
